@@ -128,31 +128,12 @@ def enumerate_short(max_n=5, max_ev=2):
                     yield {"cats": list(sizes), "enc": enc, "header": header}
 
 
-def run(ctx):
-    max_n = ctx.n(5, 6)
-    max_ev = ctx.n(2, 3)
-    for i, case in enumerate(enumerate_short(max_n, max_ev)):
-        if i % ctx.nshards != ctx.shard:
-            continue
-        case["frac"] = (i % 3 != 0)
-        case["tsalt"] = i
-        case["timefmt"] = ("auto", "us", "ms")[i % 3] if case["frac"] else "auto"
-        ctx.check(case)
-        ctx.record(case, nontrivial(case), "exhaustive")
-    ctx.exhaustive["n<=%d catalogs x 0..%d events x placeholder/omit x header, 3 loaders" % (max_n, max_ev)] = True
-    # negative: every short encoding with >= 2 id groups, one swap position
-    for i, case in enumerate(enumerate_short(4, 2)):
-        if i % ctx.nshards != ctx.shard or i % 2:
-            continue
-        case["swap"] = i // 2
-        ctx.check(case)
-        ctx.record(case, True, "negative")
-
+def make_long_cases(max_n):
     ids = st.text(alphabet=st.characters(min_codepoint=33, max_codepoint=126), min_size=1, max_size=12)
 
     @st.composite
     def long_cases(draw):
-        n = draw(st.one_of(st.integers(1, 20), st.integers(1, ctx.n(400, 2000))))
+        n = draw(st.one_of(st.integers(1, 20), st.integers(1, max_n)))
         pattern = draw(st.sampled_from(["sparse", "dense", "leading_gap", "blocks"]))
         sizes = []
         for i in range(n):
@@ -176,6 +157,34 @@ def run(ctx):
         return {"cats": cats, "enc": enc, "header": draw(st.booleans()), "frac": draw(st.booleans()),
                 "timefmt": draw(st.sampled_from(["auto", "us", "ms"])),
                 **({"swap": draw(st.integers(0, 50))} if draw(st.integers(0, 5)) == 0 else {})}
+    return long_cases()
+
+
+def fuzz_strategy(ctx):
+    return make_long_cases(60)
+
+
+def run(ctx):
+    max_n = ctx.n(5, 6)
+    max_ev = ctx.n(2, 3)
+    for i, case in enumerate(enumerate_short(max_n, max_ev)):
+        if i % ctx.nshards != ctx.shard:
+            continue
+        case["frac"] = (i % 3 != 0)
+        case["tsalt"] = i
+        case["timefmt"] = ("auto", "us", "ms")[i % 3] if case["frac"] else "auto"
+        ctx.check(case)
+        ctx.record(case, nontrivial(case), "exhaustive")
+    ctx.exhaustive["n<=%d catalogs x 0..%d events x placeholder/omit x header, 3 loaders" % (max_n, max_ev)] = True
+    # negative: every short encoding with >= 2 id groups, one swap position
+    for i, case in enumerate(enumerate_short(4, 2)):
+        if i % ctx.nshards != ctx.shard or i % 2:
+            continue
+        case["swap"] = i // 2
+        ctx.check(case)
+        ctx.record(case, True, "negative")
+
+    long_cases = lambda: make_long_cases(ctx.n(400, 2000))
 
     def fn(c, case):
         check_case(c, case)
